@@ -5,6 +5,8 @@ Outcome tokens (per endogenous variable, per pass)
     ['move', d]            value += d
     ['set', v]             value = v                  ('nan', 'inf', '-inf' as strings)
     'warn'                 value = 1.0 / 0.0 through NumPy (emits RuntimeWarning, stores inf unless warnings are errors)
+    ['warn', 'Category', v]  warnings.warn(..., Category) and then value = v - a guarded operation in the model's own code
+                           (UserWarning, DeprecationWarning, FutureWarning; stores v unless warnings are errors)
     ['raise', 'Name']      raise that exception (ZeroDivisionError, ValueError, KeyError, RuntimeError)
 A pass is {var: token}; a script is {"<T>:<pass>": pass}; missing entries mean 'same' for every variable.
 Hooks: {'before': 'Name'|None, 'after': 'Name'|None} raise the named exception.
@@ -19,6 +21,10 @@ EXC = {'ZeroDivisionError': ZeroDivisionError, 'ValueError': ValueError, 'KeyErr
        # the library's own exception classes can come out of user code too (e.g. a nested model solved inside a pass)
        'SolutionError': fsic.exceptions.SolutionError, 'NonConvergenceError': fsic.exceptions.NonConvergenceError,
        'FSICError': fsic.exceptions.FSICError, 'IndexError': IndexError, 'Exception': Exception}
+
+
+WARNING_CATEGORIES = {'UserWarning': UserWarning, 'DeprecationWarning': DeprecationWarning, 'FutureWarning': FutureWarning,
+                      'RuntimeWarning': RuntimeWarning}
 
 
 def dec(v):
@@ -40,6 +46,17 @@ def apply_pass(get, set_, tokens, strict_ref=None, rebind=None):
                 set_(name, float('inf'))
             continue
         kind = tok[0]
+        if kind == 'warn':
+            category = WARNING_CATEGORIES[tok[1]]
+            if strict_ref is None:
+                import warnings
+                warnings.warn('scripted: guarded operation', category)
+                set_(name, np.float64(dec(tok[2])))
+            elif strict_ref:
+                raise category('scripted: guarded operation')
+            else:
+                set_(name, np.float64(dec(tok[2])))
+            continue
         if kind == 'rebind':
             # like 'move', but through a whole-series assignment of a Python list (the container replaces the array object)
             if rebind is not None:
